@@ -211,3 +211,48 @@ def href_obligations(prop="C16", replay=None):
         if replay:
             r.replay = replay()
     return [r]
+
+
+def page_of_the_context(prop="C11", replay=None):
+    """MetaMarkdown.convert makes the links of a comment relative to the page that shows it: the page of the documented entity or, for an entity without one (a local type, its
+    components and bindings, ...), of the *nearest* ancestor that has one - however many levels up.  Recognised form: a `while` loop over `entity` that starts at `context`,
+    leaves with the first `entity.get_url()` that is not None and otherwise steps to `entity.parent`; FortranBase.markdown passes `context=self` with every comment and summary it
+    converts."""
+    import ast
+    from harness import loader
+    from harness.core import OR, PROVED, REFUTED, UNKNOWN
+    out = []
+    fn = loader.find_def("ford._markdown", "MetaMarkdown.convert")
+    loops = [n for n in fn.body if isinstance(n, ast.While)]
+    ok = False
+    why = "no while loop at the top level of convert"
+    if len(loops) == 1:
+        l = loops[0]
+        src = ast.unparse(l)
+        var = next((t.id for st in fn.body if isinstance(st, ast.Assign) and ast.unparse(st.value) == "context" for t in st.targets if isinstance(t, ast.Name)), None)
+        steps = [st for st in l.body if isinstance(st, ast.Assign) and len(st.targets) == 1 and isinstance(st.targets[0], ast.Name) and st.targets[0].id == var
+                 and ast.unparse(st.value) in (f"getattr({var}, 'parent', None)", f"{var}.parent")]
+        leaves = [st for st in l.body if isinstance(st, ast.If) and f"{var}.get_url()" in ast.unparse(st.test) and "is not None" in ast.unparse(st.test) and any(isinstance(b, ast.Break) for b in st.body)]
+        cond_ok = var is not None and f"{var} is not None" in ast.unparse(l.test)
+        ok = bool(var and steps and leaves and cond_ok and len(l.body) == 2 and l.body.index(leaves[0]) < l.body.index(steps[0]))
+        why = f"loop variable {var}; leaves at the first URL: {bool(leaves)}; steps to the parent: {bool(steps)}; runs while there is an entity: {cond_ok}"
+    r = OR(id=f"{prop}.S.MetaMarkdown.convert.links_are_relative_to_the_page_of_the_nearest_ancestor_with_a_page", status=PROVED if ok else UNKNOWN, kind="S", role="post", backend="ast",
+           target="ford._markdown.MetaMarkdown.convert", desc=f"`while ... {{entity}} is not None: if (url := entity.get_url()) is not None: break; entity = entity.parent` ({why})")
+    if not ok:
+        hit = replay() if replay else None
+        r.detail = "the walk from the documented entity up to the first ancestor with a page is not of the recognised form"
+        if hit:
+            r.status, r.replay = REFUTED, hit
+    out.append(r)
+    mk = loader.find_def("ford.sourceform", "FortranBase.markdown")
+    calls = [c for c in ast.walk(mk) if isinstance(c, ast.Call) and isinstance(c.func, ast.Attribute) and c.func.attr == "convert"]
+    bad = [ast.unparse(c)[:80] for c in calls if not any(k.arg == "context" and ast.unparse(k.value) == "self" for k in c.keywords)]
+    r2 = OR(id=f"{prop}.S.FortranBase.markdown.every_conversion_gets_the_entity_as_context", status=(REFUTED if bad else PROVED) if calls else UNKNOWN, kind="S", role="pre", backend="ast",
+            target="ford.sourceform.FortranBase.markdown", desc=f"each of the {len(calls)} `md.convert(..)` calls of FortranBase.markdown (comment, summary) passes `context=self`")
+    if bad:
+        r2.witness = {"calls": bad}
+        r2.detail = "text converted without its entity: references skip the entity's own scope and the links are not relative to any page"
+        if replay:
+            r2.replay = replay()
+    out.append(r2)
+    return out
